@@ -58,6 +58,18 @@ structure MqttSpec where
   rules : List (Option MqttRule)
 deriving Repr, DecidableEq
 
+/-- `libcb.Policy` (pkg/util/circuitbreaker): the fields that size windows / admit calls (uint32 in Go) -/
+structure CBLibPolicy where
+  slidingWindowSize : Int
+  permitted : Int
+  minCalls : Int
+deriving Repr, DecidableEq
+
+/-- what validation guarantees about a CircuitBreaker policy (tags: `slidingWindowSize` `minimum=1`, default
+100; the two counts are `uint32` without a minimum) -/
+def CBLibPolicy.accepted (p : CBLibPolicy) : Bool :=
+  decide (1 ≤ p.slidingWindowSize) && decide (0 ≤ p.permitted) && decide (0 ≤ p.minCalls)
+
 /-! ### documents → records -/
 
 def RASpec.ofJ (j : J) : RASpec := ⟨j.sget "compress", j.sget "decompress", j.sget "body"⟩
@@ -65,6 +77,9 @@ def BSpec.ofJ (o : Oracle) (j : J) : BSpec :=
   ⟨j.sget "sourceNamespace", j.sget "template",
    o.tmpl (j.sget "leftDelim") (j.sget "rightDelim") (j.sget "template")⟩
 def RLPolicy.ofJ (o : Oracle) (p : J) : RLPolicy := ⟨p.sget "limitRefreshPeriod", o.dur (p.sget "limitRefreshPeriod")⟩
+/-- `CircuitBreakerPolicy.CreateWrapper` copies the three fields (defaults from `DefaultPolicy`: 100, 10, 100) -/
+def CBLibPolicy.ofJ (p : J) : CBLibPolicy :=
+  ⟨p.iget "slidingWindowSize" 100, p.iget "permittedNumberOfCallsInHalfOpenState" 10, p.iget "minimumNumberOfCalls" 100⟩
 def MqttRule.ofJ (r : J) : Option MqttRule :=
   some ⟨if r.has "when" then some ⟨(r.get "when").sget "packetType"⟩ else none, r.sget "pipeline"⟩
 def MqttSpec.ofJ (j : J) : MqttSpec := ⟨(j.aget "rules").map MqttRule.ofJ⟩
